@@ -737,11 +737,24 @@ def fold(case, out):
     return o
 
 
+def guessed_self(case):
+    """`@staticmethod` over a parse-decorated plain function whose first parameter looks like `self`"""
+    ps = case["params"]
+    if case.get("ctx") != "static_inner" or not ps:
+        return False
+    p = ps[0]
+    return (p["kind"] in ("po", "pk") and not p.get("ann") and not p.get("default") and not p.get("use_param")
+            and not p.get("alias") and not p.get("alias_from") and p.get("ci") is None)
+
+
 def design_case(case):
     """the call as utype's documentation reads it: private parameters are not fields (never converted) and a private
     parameter passed by keyword is ignored"""
     c = dict(case)
     priv = {p["name"] for p in case["params"] if is_private(p["name"]) and p["kind"] in ("po", "pk", "ko")}
+    if guessed_self(case):
+        # the bare first parameter of a guessed instance method is the reserved one, bound like `self` whatever its name
+        priv.discard(case["params"][0]["name"])
     c["params"] = [dict(p, ann=None) if is_private(p["name"]) and p["kind"] in ("po", "pk", "ko") else p for p in case["params"]]
     c["kwargs"] = [kv for kv in case["kwargs"] if kv[0] not in priv]
     return c
@@ -790,16 +803,6 @@ def verdict(case, out, ex, nobind_err=None):
 
 def spec_bind(case, out):
     return verdict(case, out, expected(case))
-
-
-def guessed_self(case):
-    """`@staticmethod` over a parse-decorated plain function whose first parameter looks like `self`"""
-    ps = case["params"]
-    if case.get("ctx") != "static_inner" or not ps:
-        return False
-    p = ps[0]
-    return (p["kind"] in ("po", "pk") and not p.get("ann") and not p.get("default") and not p.get("use_param")
-            and not p.get("alias") and not p.get("alias_from") and p.get("ci") is None)
 
 
 def classify_bind(case, out):
@@ -939,7 +942,7 @@ class C08(Check):
     driver = "C08"
     impl = "harness.c08:impl"
     case_timeout = 20.0
-    budget = {"quick": 3000, "thorough": 40000}
+    budget = {"quick": 10000, "thorough": 40000}
     search_budget = {"quick": 4000, "thorough": 40000}
     rule = ("random declarations (0-5 parameters over the five kinds; int/str annotations; defaults; Param(alias, alias_from, "
             "case_insensitive); private `_x` names) in 9 class contexts x 4 wrapper kinds x eager/lazy x 11 Options, each with a "
